@@ -327,6 +327,11 @@ def newIstioCA (b : Bundle) (defaultTTL maxTTL now : Int) : Option CA :=
   | none => none
   | some d => some { defaultTTL := d, maxTTL := maxTTL, bundle := b }
 
+/-- The key cert bundle is replaced under the live CA (`KeyCertBundle.VerifyAndSetAll`: root-cert
+    rotator, cacerts reload).  The effective default TTL, computed by `minTTL` at construction, is NOT
+    recomputed. -/
+def CA.rotated (ca : CA) (b : Bundle) : CA := { ca with bundle := b }
+
 inductive CAErr
   | caNotReady | csrError | ttlError | certGenError
   deriving DecidableEq, Repr
